@@ -33,7 +33,7 @@ CLAIMED = {
              'allocate/deallocate; allocate is called only by Managed*::new and deallocate only by their Drop impls with the recorded size; '
              'Managed* literals occur only in new with size = allocate\'s result; every path of allocate is balanced (Ok: +size once and that '
              'size is returned, Err: net zero); no leak/duplication primitive outside the audited sort utilities; values are immutable after '
-             'construction so no Rc cycle can form. Also decided: the limit comparison shape and who reads size_limit (monotonicity in L), and '
+             'construction so no Rc cycle can form. Also decided: the limit comparison shape, that the total compared with the limit already includes the new bytes (the comparison is dominated by the addition), and who reads size_limit (monotonicity in L), and '
              'that the size model reads every runtime-sized payload field, and that the byte counts derived from a big integer are in bytes (unit analysis over bits / 64-bit digits / bytes). NOT decided: that dyn_size byte counts are adequate numbers, nor peak '
              'accounting of transient native buffers.',
         note='Trusted: rustc MIR + drop elaboration (each Managed* value dropped exactly once unless leaked by a listed primitive); '
@@ -87,7 +87,7 @@ CLAIMED = {
              'operator; failed try_into; MIN arms; listed assert sites) — the canonical form on which derived equality, hash, text and the '
              'mixed comparison arms rely; overflow-capable machine arithmetic on the small form only behind arms excluding (MIN,-1)/MIN; '
              'impls of Op/OpAssign apply only Op; swapped or-patterns only in commutative operators; Rem floored as documented; mixed '
-             'comparison arms mirrored (abstract decision table on the MIR); the int builtins register the operator of the same name; every integer a binary int native returns is computed by the operator of that native from both operands; no saturating float-to-integer `as` cast yields a program integer; abs of the machine word only where i64::MIN is excluded; integer functions of the stdlib written in the language do not round a float quotient; the float parse of a number literal is reached only after the spelling was tested for being an integer spelling. NOT decided: exactness of gcd/'
+             'comparison arms mirrored (abstract decision table on the MIR); the int builtins register the operator of the same name; every integer a binary int native returns is computed by the operator of that native from both operands; no saturating float-to-integer `as` cast yields a program integer; abs of the machine word only where i64::MIN is excluded; integer functions of the stdlib written in the language do not round a float quotient; the float parse of a number literal is reached only after the spelling was tested for being an integer spelling; the machine-parse shortcut of from_str_radix reaches the arbitrary-size parser on every path for both overflow kinds (decision table over IntErrorKind). NOT decided: exactness of gcd/'
              'factorial/roots/binom/multinom arithmetic and of text/float conversions (value-level).',
         note='Trusted: syn parse; i64 checked_* and num-bigint semantics; the book for the rounding mode of mod.',
         technique='static analysis: syntax-tree rules (constructor-site classification, arm-order guards, operator/trait agreement, table agreement with the book); cast / call inventories, dominance and control-dependence rules and an abstract decision table on resolved MIR; a lexical rule over the stdlib text',
@@ -97,7 +97,7 @@ CLAIMED = {
         text='Effect-freedom decided as a capability argument on the resolved call graph: none of the ~1280 bodies reachable from feed_file '
              '(pest parser, compilation scope, type relations, and the 60 compile-time callbacks of dynamic functions) calls the evaluator, a '
              'native or a dyn-eval callback, nor has a local of runtime/scope type — the only road to the injected writer, clock and rng. '
-             'Totality is decided partially: every rule-dispatching match covers all alternatives of the grammar choice it dispatches on '
+             'The auto type `$` stays a whole turbofish slot: every recursive call of get_complete_type passes the constant false for the auto permission. Totality is decided partially: every rule-dispatching match covers all alternatives of the grammar choice it dispatches on '
              '(computed from the pest rule tree), unwrap chains on rule children stay within the guaranteed children, and every explicit '
              'panic!/unreachable!/unimplemented! of the compile phase is a covered dispatch default or listed with a reason; text-to-number '
              'conversions are never unwrapped; every position-indexed access of the compile phase (and every slice of source text with constant bounds) is dominated by a length test of the same collection or listed with a reason; '
@@ -145,7 +145,7 @@ CLAIMED = {
              'documented decision (take the single exact; ambiguity for >1 exact; else the single generic; ambiguity for >1 generic; else '
              'NoOverload) whatever its syntactic form; the tier of a candidate is a function of (is_generic, '
              'is_unknown) and is_unknown of the argument types only; own overloads are appended before the parent\'s and never indexed by '
-             'position; the own generic-parameter list of a declaration (which decides its tier) is not influenced by the generic names inherited from enclosing functions (data + control dependences with &mut mutation and closure summaries), so renaming a generic parameter cannot change a rank; get_item hides a parent overload of the recursing name exactly when one of its forward requirements is unfulfilled (decision table: the any/all closure evaluated abstractly, the polarity of the test read off the CFG). Hence the outcome depends only on the multiset of matching candidates. Known finding: dynamic candidates share the '
+             'position; the own generic-parameter list of a declaration (which decides its tier) is not influenced by the generic names inherited from enclosing functions (data + control dependences with &mut mutation and closure summaries), so renaming a generic parameter cannot change a rank; the candidate list handed to resolve_overload is never cut by position between collection and resolution; get_item hides a parent overload of the recursing name exactly when one of its forward requirements is unfulfilled (decision table: the any/all closure evaluated abstractly, the polarity of the test read off the CFG). Hence the outcome depends only on the multiset of matching candidates. Known finding: dynamic candidates share the '
              'generic tier (R05.6). NOT decided: that spec.bind matches exactly the right candidates (C04).',
         note='Trusted: syn parse. One known finding listed in known_findings.json.',
         technique='static analysis on resolved MIR: loop-carried-state and exit-edge analysis, finite abstract evaluation of the post-loop decision table, influence (dependence) closure of the own-generics list; two tier/append rules on the syntax tree',
@@ -186,7 +186,7 @@ CLAIMED = {
              'location is established (in the body or at every call site), and every explicit length argument is 0, the source length or the source length minus one (never a bucket count); the two locate routines have the same summary (hash called on [key], '
              'to_u64 with failure exit, bucket looked up by that hash, eq called on [key, stored] in that order over the whole bucket with no position-dropping adaptor, '
              'Vacant/Missing/Found all carrying the converted hash), helpers included; every bucket handed to the table is a non-empty literal or stored on the is_empty()==false edge of a test of that bucket, '
-             'because hash() and the size model fold over all buckets; a KeyLocation is used only on the collection it was computed on with no write in between, or on an unwritten clone of it. '
+             'because hash() and the size model fold over all buckets; a KeyLocation is used only on the collection it was computed on with no write in between, or on an unwritten clone of it; outside the bucket-table writers no decision on a KeyLocation tells Missing from Vacant (which of the two locate answers depends on collisions only). '
              'NOT decided: agreement with an association-list model under arbitrary consistent hash functions (value level).',
         note='Trusted: rustc MIR, borrow checking (no &mut through Rc).',
         technique='static analysis: type-closure immutability audit; variant-aware path counting; value-origin summaries with sibling cross-check; typestate of key locations (receiver identity + write-free paths) on resolved MIR',
@@ -195,7 +195,7 @@ CLAIMED = {
         level='other',
         text='Structural clauses decided for every site: every FencedString literal keeps buffer and code-point table consistent (no reuse of '
              'the table over a re-encoded buffer; the case-mapping siblings agree); every native that calls substring/substr with an '
-             'argument-derived start tests it against the length first, and, because that test admits start == len, FencedString looks a caller-supplied position up in the code-point table only by length-tolerant accesses (get / range slice / index under a length test); a unit analysis on the MIR (byte offsets vs code-point counts, origins walked backwards through statements, calls and closures) '
+             'argument-derived start tests it against the length first, and, because that test admits start == len, FencedString looks a caller-supplied position up in the code-point table only by length-tolerant accesses (get / range slice / index under a length test); inside FencedString an entry of the char-start table (a byte offset) is added to / subtracted from byte quantities or constants only, never a character index or count (unit origins through closures and captured variables); a unit analysis on the MIR (byte offsets vs code-point counts, origins walked backwards through statements, calls and closures) '
              'shows that no byte offset reaches a code-point sink (substring/substr indices, padding widths, integers returned by the str and regex '
              'natives) and no program-supplied index reaches a byte API (&str slicing, regex Input ranges) without conversion; the escape table equals the book\'s list with validated \\u{..} scalars; raw strings '
              'bypass unescaping while quoted and f-string text parts go through it; escape sequences are decoded in one pass (the escape pattern is scanned over literal text only, never over already decoded text). NOT decided: agreement of split/replace/strip/... (xray '
@@ -223,7 +223,7 @@ CLAIMED = {
              '/ out-of-range exits are checked); Chain and Slice literals occur only inside their invariant-keeping constructors and a slice of '
              'a slice is flattened by adding offsets (the operands of the rebuilt Slice come from the inner payload plus the request); whether slice() builds a Slice at all is decided '
              '(control + data dependence closure) by tests of start against end and against the length; the Range literal is built only after the zero-step and emptiness tests; '
-             'value_to_idx compares the converted index with the length as idx >= len / idx < len wherever the test is written; natives never order two raw index arguments before normalising them; optional bounds (None = unbounded) are never combined with the derived ordering of Option. NOT decided: '
+             'value_to_idx compares the converted index with the length as idx >= len / idx < len wherever the test is written; natives never order two raw index arguments before normalising them; optional bounds (None = unbounded) are never combined with the derived ordering of Option; every success return of a native that validates an index lies behind value_to_idx on every path. NOT decided: '
              'agreement of len/get/slice/... with list semantics for all compositions (value level).',
         note='Trusted: rustc MIR, syn parse.',
         technique='static analysis: type-closure immutability audit; who-constructs rules; backward slices, control-dependence closure and operand-origin classification of comparisons on resolved MIR',
@@ -234,7 +234,7 @@ CLAIMED = {
              'of absorbing adaptors (collect, count, last, fold, ...) on inner generator iterators anywhere in the _iter family; the slice '
              'dimensions are decided by path-sensitive dependences on the MIR: on every path the merged start depends on inner start and start, the '
              'merged end depends on the new end + inner start whenever the new end may exist and on the inner end whenever it may exist, and the '
-             'consumer takes a count depending on stored end and start and skips the stored start; generator-to-generator library functions written in the language apply no consuming function (by the book: Generator in, non-Generator out) to their generator parameter; where a vector of part iterators is advanced in a loop (cartesian product) an exhausted part is rewound before the loop continues. One known finding (flatten walks its outer generator eagerly). NOT decided: element-wise agreement with list pipelines.',
+             'consumer takes a count depending on stored end and start and skips the stored start; generator-to-generator library functions written in the language apply no consuming function (by the book: Generator in, non-Generator out) to their generator parameter; where a vector of part iterators is advanced in a loop (cartesian product) an exhausted part is rewound before the loop continues; every part list built by the generator chain is computed from both operands (field-sensitive dependences). One known finding (flatten walks its outer generator eagerly). NOT decided: element-wise agreement with list pipelines.',
         note='Trusted: rustc MIR, syn parse, laziness of std iterator adaptors.',
         technique='static analysis: immutability audit, adaptor inventory over the iterator-construction bodies, path-sensitive dependence analysis of the slice dimensions on resolved MIR; a lexical rule over the stdlib text against the book\'s signatures',
         design='2/C16'),
